@@ -95,6 +95,7 @@ type contractSet struct {
 	files       []string
 	order       []string // func keys in file order
 	invariants  []*typeInvariant
+	ginvariants []*typeInvariant
 }
 
 // typeInvariant is sugar: the expression is added to the requires and ensures of
@@ -208,7 +209,12 @@ func (cs *contractSet) loadContractFile(path, pkgPath string) error {
 		trim := strings.TrimSpace(body)
 		first := strings.Fields(trim)[0]
 		indent := len(body) - len(strings.TrimLeft(body, " \t"))
-		isHead := indent <= 1 && (first == "func" || first == "spec" || first == "axiom" || first == "lemma" || first == "ghost" || first == "interface" || first == "package" || first == "invariant")
+		if indent <= 1 && first == "global" && strings.HasPrefix(trim, "global invariant") {
+			trim = strings.TrimSpace(strings.TrimPrefix(trim, "global"))
+			trim = "g" + trim // "ginvariant (...) ..."
+			first = "ginvariant"
+		}
+		isHead := indent <= 1 && (first == "ginvariant" || first == "func" || first == "spec" || first == "axiom" || first == "lemma" || first == "ghost" || first == "interface" || first == "package" || first == "invariant")
 		if isHead {
 			cur = &rawBlock{head: trim, line: i + 1}
 			blocks = append(blocks, cur)
@@ -238,9 +244,9 @@ func (cs *contractSet) loadContractFile(path, pkgPath string) error {
 			if pkgPath == "builtin" {
 				pkgPath = ""
 			}
-		case "invariant":
+		case "invariant", "ginvariant":
 			// invariant (w *Writer) expr
-			rest := strings.TrimSpace(strings.TrimPrefix(b.head, "invariant"))
+			rest := strings.TrimSpace(strings.TrimPrefix(b.head, f[0]))
 			end := strings.Index(rest, ")")
 			if !strings.HasPrefix(rest, "(") || end < 0 {
 				return fmt.Errorf("%s: bad invariant", where)
@@ -254,7 +260,12 @@ func (cs *contractSet) loadContractFile(path, pkgPath string) error {
 			if err != nil {
 				return fmt.Errorf("%s: %v", where, err)
 			}
-			cs.invariants = append(cs.invariants, &typeInvariant{pkgPath: pkgPath, recvName: rf[0], recvType: rf[1], src: src, e: e, where: where})
+			ti := &typeInvariant{pkgPath: pkgPath, recvName: rf[0], recvType: rf[1], src: src, e: e, where: where}
+			if f[0] == "ginvariant" {
+				cs.ginvariants = append(cs.ginvariants, ti)
+			} else {
+				cs.invariants = append(cs.invariants, ti)
+			}
 		case "ghost":
 			if len(f) >= 4 && f[1] == "var" {
 				ty, err := parseTypeString(strings.Join(f[3:], " "))
